@@ -28,7 +28,7 @@ func init() {
 		Pools: true,
 		Name:  "optparams",
 		Props: []string{"C16"},
-		Plan:  simple(150000, 20000000),
+		Plan:  simple(150000, 8000000),
 		Run:   runOptParams,
 		Real:  []string{"smpp.NewTLV / TLVs.SetTLV / TLVs.Bytes / ReadTLVs / ReadTLVs1", "smgp.NewOption / Options.Add / Serialize / Len / ParseOptions / ReadOptions / TP_udhi", "IEncode / IDecode of smpp34.SubmitSm, DeliverSm, BindResp and smgp30.Submit, Deliver"},
 		Stub:  []string{"triplet-set generator", "emission-order chooser behind verifhook.ReorderTriplets", "link with truncate / subst faults on the tail", "model triplet parser"},
